@@ -58,8 +58,9 @@ req_st = st.fixed_dictionaries({
     "reqbody": st.binary(max_size=30),
     "pieces": st.lists(piece, min_size=1, max_size=4),
     "pauses": st.lists(st.integers(0, 2), min_size=1, max_size=4),
-    "status": st.sampled_from(["200 OK", "201 Created", "404 Not Found"]),
-})
+    "status": st.sampled_from(["200 OK", "200 OK", "201 Created", "404 Not Found", "204 No Content", "304 Not Modified"]),
+}).map(lambda r: dict(r, shape=(r["shape"] if r["shape"] in ("empty", "empty0") else "empty"))
+       if r["status"][:3] in ("204", "304") else r)     # 204 / 304 carry no body (with or without Content-Length: 0)
 sched_list = st.one_of(st.just([]), st.lists(st.sampled_from([0, 0, 1, 2, 3, 5, 8, 13, 64, 1000]), min_size=1, max_size=6))
 sched_st = st.fixed_dictionaries({"a_send": sched_list, "a_recv": sched_list, "b_send": sched_list, "b_recv": sched_list})
 case_st = st.fixed_dictionaries({
